@@ -206,6 +206,10 @@ def plan_c05(tier, seed):
         + stack_jobs(cfgs, ["walk"], n, ops, ck, kinds=ITER_KINDS) \
         + low_jobs(cfgs, n, ops, ck, kinds=["heap_allocator", "malloc_allocator", "aligned<heap>", "temporary/explicit-stack"]) \
         + arena_jobs(cfgs, tier)
+    # the temporary block source under threads: stacks lost from the list are never freed (scheduler-controlled interleavings, exit children)
+    jobs += [Job("h_thread", "rwd", "plain", "sched", "scheduled", c, extra=["--maxthreads", "3"], cpu=900) for c in chunks(_scale(tier, 1000, 20000), 250 if q else 5000)]
+    for k in EXIT_KINDS:
+        jobs += [Job("h_thread", "rwd", "plain", "exit", k, c, cpu=300) for c in chunks(_scale(tier, 6, 30), 6)]
     return dict(jobs=jobs, level="exploration",
                 rule=RULE_HISTORY % ("allocations, releases, unwinds, shrink_to_fit, moves, move assignments, swaps and destruction at seeded points over "
                                      "instrumented block sources that check every release (known block, once, same address/size/alignment, LIFO)",
@@ -320,7 +324,7 @@ def plan_c09(tier, seed):
                         "smart_pointers": 300})
 
 
-MUTEX_KINDS = ["direct_storage+monitor-mutex", "reference_storage+monitor-mutex", "any_reference+monitor-mutex", "direct_storage+std::mutex"]
+MUTEX_KINDS = ["empty-stateful-allocator+monitor-mutex", "direct_storage+monitor-mutex", "reference_storage+monitor-mutex", "any_reference+monitor-mutex", "direct_storage+std::mutex"]
 REAL_TS_KINDS = ["thread_safe<pool<node>>", "thread_safe<pool<small>>", "thread_safe<coll<node,log2>>", "thread_safe<stack>"]
 STATELESS_KINDS = ["heap_allocator", "malloc_allocator", "new_allocator", "virtual_memory_allocator"]
 EXIT_KINDS = ["exit/workers-only", "exit/main-only", "exit/main-and-workers", "exit/workers-with-initializers", "exit/nothing-used",
@@ -407,7 +411,8 @@ STL_PROGRAM_KINDS = ["%s/%s" % (c, a) for a in ("std_allocator", "any_std_alloca
     + ["%s/std_allocator-composed" % c for c in ("list", "vector", "deque", "basic_string", "unordered_map")] \
     + ["list/std_allocator-propagate<move,swap>", "vector/std_allocator-propagate<move,swap>", "map/std_allocator-propagate<move,swap>",
        "list/std_allocator-propagate<copy>", "unordered_set/std_allocator-propagate<copy>", "set/std_allocator-propagate<swap>",
-       "deque/std_allocator-propagate<swap>", "list/std_allocator-propagate<none>", "vector/std_allocator-propagate<none>"]
+       "deque/std_allocator-propagate<swap>", "list/std_allocator-propagate<none>", "vector/std_allocator-propagate<none>",
+       "list/std_allocator-shared", "vector/std_allocator-shared", "unordered_map/std_allocator-shared"]
 NODESIZE_KINDS = ["forward_list", "list", "set", "multiset", "unordered_set", "unordered_multiset", "map", "multimap", "unordered_map",
                   "unordered_multimap", "shared_ptr"]
 
@@ -422,6 +427,9 @@ def plan_c10(tier, seed):
             jobs += [Job("h_stl", cfg, "asan", "programs", k, c, ops=_scale(tier, 150, 300), cpu=600) for c in chunks(n, 40 if q else 200)]
         # deleters and smart-pointer helpers over value types from 1 byte to above 64 KiB, base/derived conversions
         jobs += [Job("h_compose", cfg, "asan", "forward", "std_allocator+deleters", c, ops=_scale(tier, 200, 1000), cpu=300) for c in chunks(_scale(tier, 40, 400), 40 if q else 200)]
+    # containers on a thread_safe_allocator whose allocator refuses a request: the storage must stay usable (same observation as C03/C13)
+    for k in ("direct_storage+monitor-mutex", "reference_storage+monitor-mutex"):
+        jobs += [Job("h_thread", "rwd", "plain", "mutex", k, c, ops=_scale(tier, 2000, 4000), extra=["--maxthreads", "4"], cpu=900) for c in chunks(_scale(tier, 3, 30), 3)]
     if q:
         for k in NODESIZE_KINDS:
             jobs.append(Job("h_stl", "rwd", "asan", "nodesize", k, (0, 50), cpu=600))
@@ -541,7 +549,7 @@ def plan_c16(tier, seed):
     # "valid releases in any order never trigger a report": valid histories with the recording handlers, in every configuration
     cfgs = ["rwd", "dbg", "chk"] if q else ["rel", "rwd", "dbg", "dbg16", "chk"]
     m = _scale(tier, 30, 500)
-    jobs += pool_jobs(cfgs, ["walk", "corner"], m, 250, _scale(tier, 30, 100)) + coll_jobs(cfgs, ["walk"], m // 2, 250, _scale(tier, 30, 100)) \
+    jobs += pool_jobs(cfgs, ["walk", "corner", "phased"], m, 250, _scale(tier, 30, 100)) + coll_jobs(cfgs, ["walk", "phased"], m, 250, _scale(tier, 30, 100)) \
         + stack_jobs(cfgs, ["walk"], m, 250, _scale(tier, 30, 100), kinds=STACK_KINDS)
     return dict(jobs=jobs, level="fault_enumeration",
                 rule="(a) one child process per bad call: a seeded valid prefix on a real allocator, then exactly one invalid release of a class the "
@@ -640,6 +648,8 @@ def plan_c19(tier, seed):
         # collections with static storage duration (created before main): the same bucket selection
         jobs += [Job("h_arith", cfg, fl, "buckets-static", "all", (0, 1), cpu=120) for cfg in (["rwd", "dbg"] if q else ["rel", "rwd", "dbg"])]
     jobs += [Job("h_arith", "rwd", "tsan", "buckets-threads", "all", (0, 3 if q else 10), extra=["--lookups", "20000"], cpu=300)]
+    # bucket selection as the collections use it, through all three interfaces (member, allocator_traits, composable traits)
+    jobs += coll_jobs(["rwd", "dbg"], ["walk"], _scale(tier, 20, 400), 250, _scale(tier, 20, 100))
     nrand = 16 if q else 100
     per = 62500 if q else 1000000
     jobs += [Job("h_arith", "rwd", "asan" if q else "plain", "random", "all", c, extra=["--samples", str(per)], cpu=300) for c in chunks(nrand, 1)]
